@@ -1,6 +1,7 @@
 """C18 — pretty-printing never changes the query: parse(Prettifier(...)(tree)) == tree for every parsed
 query and every setting; deterministic; the input tree is not modified."""
 import copy
+import re
 
 import lib
 import gentree
@@ -11,6 +12,10 @@ CORPUS = [
     # F11 territory: a newline inside a quoted term
     '"a\nb" AND c', '/a\nb/ OR c', 'f:"x\ny"', '("a\nb")', '[ "a\nb" TO c ]', 'NOT "a\nb"', '"a\nb"~2',
     '"a\nb"^2 d', '"a\n\nb"', '"\n"', 'x AND (y OR "l1\nl2")',
+    # F1 territory: the blank between a field name and its colon is lost by str(); inside a simple element
+    # (printed verbatim by the prettifier) `...T12:30` then fuses into one time-like word
+    "-xT12 :30", "NOT T12 :30", "(xT12 :30)^2", "+f:T12 :30", "[a TO b] -(f:(xT12\t:30))", "-xT12 :٣٠ a",
+    "xT12 :30", "f:T12 :30 AND a", "-xT12 : 30", "-xT1 :30",            # harmless neighbours
     # newlines / odd blanks in the layout only (harmless ones)
     "a\n\nAND\n\nb", "[a\nTO\nb]", "[a  TO  b]", "NOT\na", "a\n~2", "a\n^2 b", "f:\na", "(\na\n)", "\na OR b\n",
     "a\u2028OR\u3000b", "f:(\na\nb\n)", "<\n5", "+\na -\nb",
@@ -42,6 +47,38 @@ def quoted_newline(tree):
     a newline (the only tokens of the grammar that may contain one)."""
     import luqum.tree as T
     return any(isinstance(n, (T.Phrase, T.Regex)) and "\n" in n.value for _, n in gentree.all_nodes(tree))
+
+
+def off_spine_fields(tree):
+    """SearchField nodes strictly inside a simple element (one that _get_chains prints with str())"""
+    import luqum.tree as T
+    out = []
+
+    def walk(n, spine):
+        if isinstance(n, T.SearchField) and not spine:
+            out.append(n)
+        on = spine and isinstance(n, (T.BaseOperation, T.BaseGroup, T.SearchField))
+        for c in n.children:
+            walk(c, on)
+    walk(tree, True)
+    return out
+
+
+def time_fusion(tree):
+    """known finding F1 as it shows in C18 — executable predicate on the input tree: a field printed verbatim
+    inside a simple element whose name ends with 'T' + two digits and whose printed value starts with two
+    digits.  Such a tree can only come from a query with a blank before the colon (`xT12 :30`); str() drops
+    that blank (F1) and `xT12:30` is one TERM (the time syntax of the lexer)."""
+    return any(re.search(r"T\d{2}$", n.name) and re.match(r"\d{2}", n.expr.__str__(head_tail=True))
+               for n in off_spine_fields(tree))
+
+
+def classify(tree):
+    if quoted_newline(tree):
+        return "F11"
+    if time_fusion(tree):
+        return "F1"
+    return None
 
 
 def snapshot(tree):
@@ -100,7 +137,7 @@ def correspond(model_ok, res):
             settings.append((r.randrange(0, 9), r.choice([1, 5, 10, 20, 40, 80, 120, r.randrange(1, 121)]),
                              r.random() < 0.5))
         d = depth(tree)
-        f11 = quoted_newline(tree)
+        fid = classify(tree)
         for cfg in settings:
             before = snapshot(tree)
             k1, p1 = impl_pretty(Prettifier, tree, cfg)
@@ -118,11 +155,11 @@ def correspond(model_ok, res):
                 kk, t2 = PG.impl_parse(p1, parser.parse)
                 if kk != "ok":
                     res.failures.append((dict(payload, why="pretty output rejected by the parser: %s" % (t2,)),
-                                         "F11" if f11 else None))
+                                         fid))
                 elif not (t2 == tree):
                     res.failures.append((dict(payload, why="pretty output parses to a different tree",
                                               reparsed=repr(t2)[:600], original=repr(tree)[:600]),
-                                         "F11" if f11 else None))
+                                         fid))
                 else:
                     rt = True
                 if not rt:
@@ -211,15 +248,17 @@ SPEC = {
     "targets": ["props/C18.vo"],
     "model_targets": ["model/Pretty.vo", "model/Parser.vo", "model/TreeEq.vo", "model/Eq.vo"],
     "module": "C18",
-    "theorems": ["C18_refuted", "C18_deterministic", "C18_total", "C18_total_parsed", "C18_respacing",
+    "theorems": ["C18_refuted", "C18_plain_guard_refuted", "C18_deterministic", "C18_total", "C18_total_parsed", "C18_respacing",
                  "C18_respacing_plain", "C18_chunks_setting_independent", "C18_chunks_text", "C18_modulo_lexing"],
     "correspond": correspond,
     "statement": "for every parsed query t and every setting, parse(pretty cfg t) is a tree equal to t: REFUTED by "
-                 "'\"a\\nb\" AND c' (F11). Proved: pretty never raises on a parsed query (any LR tables) and is a "
+                 "'\"a\\nb\" AND c' (F11), and even without newlines by '-xT12 :30' (F1 + time syntax). Proved: pretty never raises on a parsed query (any LR tables) and is a "
                  "function; for every setting its output is the setting-independent chunk sequence glued by "
                  "non-empty blank/newline separators, each newline inside a chunk being replaced by such a separator; "
                  "and the statement's conclusion holds whenever the pretty text lexes to the query's tokens",
-    "level_text": "Coq proof (PARTIAL). Proved: (1) the full statement is refuted by a computed witness (F11); "
+    "level_text": "Coq proof (PARTIAL). Proved: (1) the full statement is refuted by a computed witness (F11), and so is "
+                  "its restriction to trees without a newline in any chunk (second witness '-xT12 :30': str() of a "
+                  "simple element drops the blank before a colon, F1, and 'T12:30' fuses into one word); "
                   "(2) pretty is deterministic and never raises on a tree whose spine operations all have an operand, "
                   "in particular (for ANY LR tables) on every tree the parser returns; (3) for every setting (any "
                   "indent, max_len, inline_ops: the width arithmetic is irrelevant) the output is: leading blanks, "
@@ -230,8 +269,8 @@ SPEC = {
                   "separator; without a newline in the chunks the output is exactly that re-spacing; (4) using the "
                   "any-table layout independence of the LR driver (C03a): if the pretty text lexes to the same "
                   "(type, lexeme) token sequence as the query, it parses to a tree equal (luqum ==) to the original. "
-                  "NOT proved: that a re-spacing of the chunks lexes to the query's tokens (a lexer fact; false "
-                  "exactly in the F11 situation). That last step is validated on every run by the correspondence, "
+                  "NOT proved: that the pretty text lexes to the query's tokens (a lexer fact; false in the F11 and F1 "
+                  "situations). That last step is validated on every run by the correspondence, "
                   "which evaluates the executable statement parse(pretty cfg t) == t both on the real "
                   "parser/prettifier and on the Coq models (Parser.parse (pretty ...) by vm_compute) and compares "
                   "the verdicts and the pretty strings; non-modification of the input is checked by snapshots.",
